@@ -236,9 +236,11 @@ def kalman_bounded(vc):
                     self.H = H
 
                 def calculateMeasurement(self, sensor_eci, state, utc, noisy=False):
-                    vals = self.H @ state
+                    vals = self.H @ state + sensor_eci  # (the predicted measurement depends on where the observing sensor was: each observation's OWN sensor state)
                     return {f"c{i}": vals[i] for i in range(len(vals))}
-            obs.append(_NS(julian_date=2459000.5, sensor_eci=None, measurement=Meas(H), r_matrix=R, measurement_states=y, sensor_id=900 - len(obs), target_id=7))
+            bias = rng.normal(size=M) * 5
+            # ids: pairs of observations share a sensor id (one sensor observing twice, from two positions) and ids descend along the stack
+            obs.append(_NS(julian_date=2459000.5 + len(obs) * 1e-4, sensor_eci=bias, measurement=Meas(H), r_matrix=R, measurement_states=y + bias, sensor_id=900 - len(obs) // 2, target_id=7))
             Hs.append(H); Rs.append(R); ys.append(y)
         if rng.integers(0, 2):
             w = copy.deepcopy(f)
